@@ -74,10 +74,17 @@ func genInvalid(g *Rng, w *World, cfg map[string]any) []InvalidCase {
 	mk("rpm.compression.level", []string{"rpm"}, func(m map[string]any) { subMap(m, "rpm")["compression"] = "gzip:fast" })
 	mk("rpm.epoch.nonnumeric", []string{"rpm"}, func(m map[string]any) { m["epoch"] = "one" })
 	mk("platform.notlinux", []string{"apk", "archlinux"}, func(m map[string]any) { m["platform"] = "darwin" })
-	mk("archlinux.name.invalid", []string{"archlinux"}, func(m map[string]any) { m["name"] = "bad name!" })
+	// invalid Arch Linux package names (the packager's own rule: ASCII
+	// alphanumerics and . _ + -, not starting with hyphen or dot); two per scenario
+	badNames := []string{"bad name!", "caf\u00e9", "p\u0430ckage", "tool\u0663", "-leading", ".leading", "with/slash", "semi;colon", "gr\u00f6\u00dfe-tool"}
+	for i := 0; i < 2; i++ {
+		bn := badNames[g.Intn(len(badNames))]
+		mk("archlinux.name.invalid", []string{"archlinux"}, func(m map[string]any) { m["name"] = bn })
+	}
 	// content lists: the base list and every per-format replacement list
 	eachList := func(m map[string]any, f func(l []any) []any) {
-		m["contents"] = f(m["contents"].([]any))
+		base, _ := m["contents"].([]any)
+		m["contents"] = f(base)
 		if ov, ok := m["overrides"].(map[string]any); ok {
 			for _, k := range Formats {
 				if o, ok := ov[k].(map[string]any); ok {
@@ -345,7 +352,7 @@ func (s *c06state) runVariant(v Variant) {
 				kinds = append(kinds, "dir")
 			}
 			if r.Kind == "script" || r.Kind == "changelog" || r.Kind == "key" {
-				kinds = append(kinds, "dangling")
+				kinds = append(kinds, "dangling", "eio")
 			}
 			if r.Kind == "key" {
 				kinds = append(kinds, "truncate", "garbage", "empty")
